@@ -133,6 +133,29 @@ def check_preset_relation(chk: Check, name, cls, ntaps, is_fir, sig: np.ndarray,
     chk.violation(payload, f"{name}: " + "; ".join(problems), finding="D13" if d13 else None)
 
 
+def check_preset_reuse(chk: Check, name, cls, sig: np.ndarray):
+    """resetting a filter (explicitly, or by flushing it) makes it behave like a new one - on presets, one block per run so
+    that the FIR history finding D13 does not interfere"""
+    chk.evaluated(("preset-reuse", name, hashlib.sha1(sig.tobytes()).hexdigest()[:8]), nontrivial=True)
+    fresh = run_schedule(cls(), sig, [len(sig)])
+    a = cls()
+    a.process(sig[: len(sig) // 2])
+    a.reset_state()
+    after_reset = run_schedule(a, sig, [len(sig)])
+    b = cls()
+    run_schedule(b, sig[::-1].copy(), [len(sig)])              # a complete earlier use, flushed
+    after_flush = run_schedule(b, sig, [len(sig)])
+    problems = []
+    if list(after_reset) != list(fresh):
+        problems.append(f"after reset_state: {len(after_reset)} samples, differs from a new filter ({len(fresh)} samples)")
+    if list(after_flush) != list(fresh):
+        problems.append(f"reused after a flushed run: {len(after_flush)} samples, differs from a new filter ({len(fresh)} samples)")
+    if problems:
+        chk.violation({"preset": name, "reuse": True, "sig": sig.tolist()}, f"{name}: " + "; ".join(problems))
+    else:
+        chk.agree()
+
+
 def run(chk: Check):
     thorough = chk.tier == "thorough"
     rng = random.Random(chk.seed)
@@ -181,6 +204,9 @@ def run(chk: Check):
                 if tag in ("max", "min", "alt") and i % 4:
                     continue
                 check_preset_relation(chk, name, cls, ntaps, is_fir, sig, bl, tag)
+    for name, cls, ntaps, is_fir in presets():
+        for n in (40, 64, 196):
+            check_preset_reuse(chk, name, cls, np.asarray([rng.randint(-20000, 20000) for _ in range(n)], dtype=np.int16))
     so = {}
     for fn in sorted(os.listdir(os.path.join(REPO, "smpl_extract", "filters"))):
         if fn.endswith(".so") or fn.endswith(".pyx"):
@@ -197,6 +223,12 @@ def run(chk: Check):
 
 def replay(chk: Check, path: str):
     rec = json.load(open(path))["case"]
+    if rec.get("reuse"):
+        for name, cls, ntaps, is_fir in presets():
+            if name == rec["preset"]:
+                check_preset_reuse(chk, name, cls, np.asarray(rec["sig"], dtype=np.int16))
+        chk.run_model(model([F("iir", b=[1], a=[1])], [[1, 2]], True, False), label="design (replay context)")
+        return
     if "preset" in rec:
         for name, cls, ntaps, is_fir in presets():
             if name == rec["preset"]:
